@@ -10,7 +10,7 @@ git -C /repo worktree add -q --detach "$d" HEAD || exit 2
 if ! git -C "$d" apply "$patch"; then echo "PATCH-FAILED $patch"; git -C /repo worktree remove --force "$d"; exit 2; fi
 cd "$(dirname "$0")/.."
 for id in "$@"; do
-  out=$(VERIF_REPO="$d" VERIF_NO_EVIDENCE=1 ./check "$id" --tier "${TIER:-quick}" 2>&1); rc=$?
+  out=$(VERIF_REPO="$d" VERIF_NO_EVIDENCE=1 VERIF_SHRINK_S="${VERIF_SHRINK_S:-5}" VERIF_FAILFAST="${VERIF_FAILFAST:-1}" ./check "$id" --tier "${TIER:-quick}" 2>&1); rc=$?
   v=$(echo "$out" | grep -c '^VIOLATION')
   echo "$(basename "$patch") $id rc=$rc violations=$v $(echo "$out" | grep -m1 'detail:' | cut -c1-220)"
 done
